@@ -5,7 +5,7 @@
    what the source says now. *)
 From Coq Require Import List NArith ZArith Bool.
 From MirV Require Import Mir.Opcode C15.Defs gen.InsnDescs C15.Validate C15.DocModes C15.TableProofs
-  C15.ValidateProofs C15.VarProofs C15.FuncProofs C15.ErrProofs C15.DeclProofs C15.Examples.
+  C15.ValidateProofs C15.VarProofs C15.FuncProofs C15.ErrProofs C15.DeclProofs C15.BoundsProofs C15.Examples.
 Import ListNotations.
 
 (* insn_descs[] is usable as the checker uses it: one row per opcode below MIR_INSN_BOUND, row i
@@ -158,3 +158,12 @@ Theorem undeclared_register_lookup_rejected : forall fc nm,
   find_rd_by_name fc nm = None -> mir_reg fc nm = Err E_undeclared_func_reg.
 Proof. exact undeclared_lookup_lemma. Qed.
 Print Assumptions undeclared_register_lookup_rejected.
+
+(* MIR_insn_op_mode's table path never indexes op_modes[] outside its 5 cells for an instruction
+   MIR_new_insn_arr accepted (before fix C15-3 jcall operands took this path with any index). *)
+Theorem table_lookup_in_bounds : forall unspec code ops, uses_table code = true ->
+  check_new_insn unspec code ops = Ok tt ->
+  forall i, i < length ops ->
+    i < OP_MODES_CELLS /\ insn_op_mode unspec code ops i = cell (desc_of code) i.
+Proof. exact table_lookup_in_bounds_lemma. Qed.
+Print Assumptions table_lookup_in_bounds.
